@@ -246,6 +246,8 @@ def refreshOp (s : St) (rows : String) : St × String :=
   evnotoffered                                  oracle "no object reported DOWN (and not connected since) is offered"
   evnostale                                     oracle "no by-address entry is stale" (addresses 0..1023)
   e2eorder <n>                                  n STATUS_CHANGE frames written back to back reach the debouncer in wire order
+  e2efailover <succ> <rows>                     the control host is gone (connection reset, refuses connections); the only known host that accepts a
+                                                connection is the one at <succ>; its tables are <rows>: reconnect, REGISTER, refresh
   e2ehold <evsA> <rowsA> <evsB> <rowsB>         burst A while the tables hold rowsA; the control node HOLDS its answer to system.peers (computed
                                                 at arrival); the tables change to rowsB and burst B (topology events / UP of unknown addresses)
                                                 is pushed and debounced WHILE that refresh is running; release; quiescence
@@ -257,6 +259,8 @@ def refreshOp (s : St) (rows : String) : St × String :=
   evrouted                                      oracle "every host the metadata refers to / a routed query is offered is an object of the ring"
   reset evq                                     a real eventDebouncer whose callback waits for the harness before it reads its frames
   evq <ev> | evqfire | evqrun <k>               debounce(frame) / the debounce timer expires (flush) / handler goroutine k reads its batch
+  evqstop | evqstoprace | evqfirestop           eventDebouncer.stop(): flusher idle / racing with a timer expiry (stop first) / called while the
+                                                flusher is committed to a flush (between `<-e.timer.C` and `e.mu.Lock()`)
   evqhandled                                    oracle "every handler that has run saw exactly the frames of its own flush"
   evdbserved                                    oracle "every request was followed by a refresh that started after it; every refreshNow() caller
                                                 was answered, and not by a refresh that had started before its call" (positions in the requests) -/
@@ -368,6 +372,26 @@ def step (s : St) (ws : List String) : St × String :=
     let s0 := trackBatch s evs
     let v1 := connectAll env (s.v.handleBatch env evs)
     ({ s0 with v := v1 }, "refreshed=" ++ (if v1.refreshReq == s.v.refreshReq then "0" else "1") ++ " " ++ snapshotE v1)
+  | ["e2efailover", succ, rows] =>
+    -- the control host is gone: the driver reconnects to the host at address <succ> (the only known host that accepts a
+    -- connection), whose system.local / system.peers are `rows` (setupConn: ring.addOrUpdate + startPoolFill), REGISTERs
+    -- again and refreshes; the events of the gap were never received (C16_failover_follows_report)
+    let s0 := { s with ctl := nat succ }
+    match parseRows rows with
+    | [] => (s0, "bad-op")
+    | loc :: peers =>
+      let s1 := regRows s0 [loc]
+      match loc.host s0.nextObj s0.ctl with
+      | none => (s1, "err:no-control-connection")
+      | some l0 =>
+        let (s2, v1, e) := addOrUpdateU s1 l0
+        let v2 := if s2.env.filter e then v1 else v1.startPoolFill s2.env e
+        let s3 := regRows { s2 with v := v2, prevIds := v2.ring.ids, prevObjs := v2.ring.allHosts, specRep := getHostsSpec loc peers s2.nextObj } (loc :: peers)
+        match getHosts loc peers s2.nextObj with
+        | none => (s3, "bad-op")
+        | some hs =>
+          let v4 := connectAll s3.env (s3.v.refresh s3.env hs)
+          ({ s3 with v := v4 }, "refreshed=1 ctl=" ++ toString loc.id ++ " reg=" ++ (if s3.noTopo && s3.noStatus then "0" else "1") ++ " " ++ snapshotE v4)
   | ["e2edrop", rows] =>
     -- the control connection is reset: reconnect to the same node (setupConn: ring.addOrUpdate + startPoolFill), then refreshRing
     match parseRows rows with
@@ -446,6 +470,13 @@ def step (s : St) (ws : List String) : St × String :=
     match s1.q.handled.getLast? with
     | none => (s1, "none " ++ queueState s1.q)
     | some b => (s1, "batch=" ++ join (b.2.map showEv) ++ " " ++ queueState s1.q)
+  | ["evqstop"] => let s1 := queueOp s .stop; (s1, "stopped " ++ queueState s1.q)
+  | ["evqstoprace"] =>
+    -- stop() and an expiry of the debounce timer race, stop synchronises with the flusher first: the expiry finds no flusher
+    let s1 := queueOp (queueOp s .stop) .fire; (s1, "stopped " ++ queueState s1.q)
+  | ["evqfirestop"] =>
+    -- the timer has expired and the flusher is committed to flushing when stop() is called: the flush happens, then the stop
+    let s1 := queueOp (queueOp s .fire) .stop; (s1, "stopped " ++ queueState s1.q)
   | ["evqhandled"] =>
     -- oracle: every handler that has run saw exactly the frames of its own flush (C16_event_batches_intact)
     (s, if s.q.intact s.qs then "ok" else
